@@ -26,12 +26,13 @@ type Def struct {
 }
 
 type Script struct {
+	Q      map[string]bool // array symbols whose definition involves quantified facts
 	defs   map[string]*Def
 	n      int
 	Axioms []string // global prelude (function decls, axioms)
 }
 
-func NewScript() *Script { return &Script{defs: map[string]*Def{}} }
+func NewScript() *Script { return &Script{defs: map[string]*Def{}, Q: map[string]bool{}} }
 
 func isSymChar(c byte) bool {
 	return c == '_' || c == '$' || c == '@' || c == '.' || c == '!' ||
@@ -106,6 +107,9 @@ func (s *Script) AddFact(name, fact string) {
 	}
 	d.Facts = append(d.Facts, fact)
 	d.fdeps = append(d.fdeps, s.symsOf(fact)...)
+	if strings.Contains(fact, "(forall") {
+		s.Q[name] = true
+	}
 }
 
 func (s *Script) Fresh(prefix, sort string) string {
@@ -121,6 +125,13 @@ func (s *Script) FreshDef(prefix, sort, body string) string {
 	d := &Def{Name: name, Sort: sort, Body: body, order: s.n}
 	d.deps = s.symsOf(body)
 	s.defs[name] = d
+	if strings.HasPrefix(sort, "(Array") {
+		for _, x := range d.deps {
+			if s.Q[x] {
+				s.Q[name] = true
+			}
+		}
+	}
 	return name
 }
 
@@ -383,4 +394,98 @@ func num(n int64) string {
 		return fmt.Sprintf("(- %d)", -n)
 	}
 	return fmt.Sprintf("%d", n)
+}
+
+// ---------- hypothesis slicing ----------
+
+func family(name string) string {
+	n := strings.Trim(name, "|")
+	n = strings.TrimPrefix(n, "h.")
+	if i := strings.LastIndex(n, "!"); i >= 0 {
+		n = n[:i]
+	}
+	n = strings.TrimSuffix(n, "@0")
+	return n
+}
+
+// array families mentioned in the definitional cone of the given terms
+func (s *Script) coneFamilies(terms []string, into map[string]bool, seen map[string]bool) {
+	var stack []string
+	for _, t := range terms {
+		for _, x := range s.symsOf(t) {
+			if !seen[x] {
+				seen[x] = true
+				stack = append(stack, x)
+			}
+		}
+	}
+	for len(stack) > 0 {
+		n := stack[len(stack)-1]
+		stack = stack[:len(stack)-1]
+		d := s.defs[n]
+		if strings.HasPrefix(d.Sort, "(Array") {
+			into[family(n)] = true
+		}
+		for _, x := range d.deps {
+			if !seen[x] {
+				seen[x] = true
+				stack = append(stack, x)
+			}
+		}
+		for _, x := range d.fdeps {
+			if !seen[x] {
+				seen[x] = true
+				stack = append(stack, x)
+			}
+		}
+	}
+}
+
+func (s *Script) directFamilies(t string) []string {
+	var out []string
+	for _, x := range s.symsOf(t) {
+		if strings.HasPrefix(s.defs[x].Sort, "(Array") {
+			out = append(out, family(x))
+		}
+	}
+	return out
+}
+
+func (s *Script) sliceFacts(hyp, goal string, facts []factRec) []factRec {
+	R := map[string]bool{}
+	seen := map[string]bool{}
+	s.coneFamilies([]string{hyp, goal}, R, seen)
+	dfs := make([][]string, len(facts))
+	for i, f := range facts {
+		dfs[i] = s.directFamilies(f.f)
+	}
+	kept := make([]bool, len(facts))
+	changed := true
+	for changed {
+		changed = false
+		for i, f := range facts {
+			if kept[i] {
+				continue
+			}
+			ok := true
+			for _, fam := range dfs[i] {
+				if !R[fam] {
+					ok = false
+					break
+				}
+			}
+			if ok {
+				kept[i] = true
+				changed = true
+				s.coneFamilies([]string{f.f, f.guard}, R, seen)
+			}
+		}
+	}
+	var out []factRec
+	for i, f := range facts {
+		if kept[i] {
+			out = append(out, f)
+		}
+	}
+	return out
 }
